@@ -506,6 +506,27 @@ func rulePlanKeys(c *Ctx) {
 					nTrim++
 				}
 			}
+			// the comparison handed back as a value (func isBlank(s string) bool { return strings.TrimSpace(s) == "" })
+			eachInstr(g, func(r instrRef) {
+				b, ok := r.In.(*ssa.BinOp)
+				if !ok || (b.Op != token.EQL && b.Op != token.NEQ) {
+					return
+				}
+				x, y := b.X, b.Y
+				if _, isK := x.(*ssa.Const); isK {
+					x, y = y, x
+				}
+				if k, isK := y.(*ssa.Const); !isK || k.Value == nil || constStr(k) != "" {
+					return
+				}
+				if cl, _ := callOf(x); cl != nil && calleeFullName(&cl.Call) == "strings.TrimSpace" && b.Referrers() != nil {
+					for _, u := range *b.Referrers() {
+						if _, isRet := u.(*ssa.Return); isRet {
+							nTrim++
+						}
+					}
+				}
+			})
 		}
 		c.check(nTrim > 0, c.Name(v), "blank-means-trimspace-empty", c.FnPos(v), "blank fields are recognised by strings.TrimSpace(x) == \"\"",
 			"the plan validator never compares strings.TrimSpace(x) with \"\": blankness is decided some other way than replay decides it, so a title made of non-ASCII white space is accepted, recorded, and replaced by the legacy-title migration on every read")
